@@ -142,7 +142,10 @@ def convert(
         initialize_vars=initialize_vars,
     )
     basic_prog.visit(declare_array_visitor)
-    basic_prog.insert_lines_at_beginning(declare_array_visitor.dim_statements)
+    implicit_dim_statements = declare_array_visitor.dim_statements
+    for dim_statement in implicit_dim_statements:
+        dim_statement.default_str_storage = default_str_storage
+    basic_prog.insert_lines_at_beginning(implicit_dim_statements)
 
     # allocate sufficient string storage
     str_var_allocator: StrVarAllocatorVisitor = StrVarAllocatorVisitor(
